@@ -560,7 +560,18 @@ pub fn run(cfg: &Cfg) {
                 n=$(wc -c < \"$f\"); cp -p \"$f\" .keep-run; head -c \"$n\" /dev/zero | tr '\\0' 'Z' > \"$f\"; touch -r .keep-run \"$f\"; rm -f .keep-run; fi; done; exit 0";
             // variants of the call: with / without a signing key, hash-algorithm selections, strip
             // prefixes, other material than product paths, an empty command, other exit statuses
-            let variant = (i / 5) % 8;
+            let variant = (i / 5) % 10;
+            // (variants 8 and 9: a command that is given arguments - among them names of things that exist
+            // in the directory it runs in, in several spellings - and prints them back as it received them)
+            let mut names: Vec<String> = std::fs::read_dir(".").map(|rd| rd.flatten().map(|e| e.file_name().to_string_lossy().to_string()).collect()).unwrap_or_default();
+            names.sort();
+            let mut echo_args: Vec<String> = vec![".".into(), "..".into(), "./".into(), "no-such-file".into(), "-n".into(), "".into()];
+            for nme in names.iter().take(3) {
+                echo_args.push(nme.clone());
+                echo_args.push(format!("./{}", nme));
+                echo_args.push(format!("x/../{}", nme));
+            }
+            let echo_script = r#"for a in "$@"; do printf '%s\n' "$a"; done"#;
             let pool = crate::meta::key_pool(0);
             let key = if variant % 2 == 1 { Some(&pool[(i / 5) % pool.len()]) } else { None };
             let algs: Option<&[&str]> = match variant { 2 => Some(&["sha512", "sha256"]), 3 => Some(&["sha512"]), _ => None };
@@ -573,6 +584,11 @@ pub fn run(cfg: &Cfg) {
                 7 => (0, vec!["sh", "-c", r"printf 'ok \377\376 not text'"]),
                 5 => (0, vec![]),
                 1 => (3, vec!["sh", "-c", "echo out-text; echo err-text 1>&2; echo created > created-by-run.txt; exit 3"]),
+                8 | 9 => {
+                    let mut c = vec!["sh", "-c", echo_script, "sh"];
+                    c.extend(echo_args.iter().map(|a| a.as_str()));
+                    (0, c)
+                }
                 _ => (0, vec!["sh", "-c", script]),
             };
             let before = record_artifacts(&["."], algs, strips);
@@ -616,6 +632,10 @@ pub fn run(cfg: &Cfg) {
                     } else if variant == 6 {
                         let want = "\u{e9}".repeat(33000);
                         sink.oracle(l.byproducts.stdout().as_deref() == Some(want.as_str()) && l.byproducts.stderr().as_deref() == Some(want.as_str()), "byproducts of a run are not the command's (long, non-ASCII) output streams", &op);
+                    } else if variant >= 8 {
+                        let want: String = echo_args.iter().map(|a| format!("{}\n", a)).collect();
+                        sink.oracle(l.byproducts.stdout().as_deref() == Some(want.as_str()) && l.byproducts.return_value() == Some(0), "the command of a run did not receive its arguments as they were given (its output lists other arguments)", &op);
+                        sink.stat("run/arguments-echoed");
                     } else if variant == 7 {
                         sink.oracle(false, "a run whose command wrote bytes that are no text was recorded with other output than the command's", &op);
                     } else {
